@@ -13,10 +13,11 @@ THEOREMS = [("FlatModel.Props.C17", t) for t in (
     "FC.C17.no_growth_after_clear", "FC.C17.log_growth", "FC.C17.push_doubles", "FC.log_growth_mvec",
     "FC.C17.no_growth_after_merge_capacity", "FC.C17.stack_no_growth_after_reserve", "FC.C17.stack_indices_fit",
     "FC.C17.with_capacity_indices")]
-LEAN_TARGETS = ["FlatModel.Generated.CoveredHeap"]
+THEOREMS += [("FlatModel.Props.UniverseHeap", "FC.Universe." + t) for t in ("C17_built_every_composition", "C17_fit_every_composition", "C17_merge_every_composition", "C17_merge_sources_every_composition", "C17_reserve_every_composition", "C17_clear_every_composition", "C17_log_growth_every_composition")]
+LEAN_TARGETS = ["FlatModel.Generated.CoveredHeap", "FlatModel.Generated.CoveredUniverseOps"]
 PROFILES = {"quick": ["checked"], "thorough": ["checked", "wrapping"], "search": ["checked"]}
 RULE = ("vector-backed structural entries (owned, string, slice with Vec indices, option, result, tuple, Vec-as-region) and FlatStacks "
-        "with Vec indices: reserve_items(batch) / reserve_regions(sources) / merge_regions(sources) / merge_capacity, from empty and "
+        "with Vec indices: reserve_items(batch, in every form with a ReserveItems impl incl. Option<&T> / Result<&T,&E> by value) / reserve_regions(sources) / merge_regions(sources) / merge_capacity, from empty and "
         "from populated regions, then pushing exactly the announced contents: every capacity reported by heap_size is unchanged and "
         "(plain-data payloads) the counting allocator sees no call inside the pushes; without pre-sizing, n = 2^6..2^12 (quick) / "
         "2^14 (thorough) pushes into every non-coded entry cost at most (#storages) * (log2(bytes stored) + 3) allocator calls; "
